@@ -569,6 +569,8 @@ package rosmar
 //@   ensures [C07:UpdateXattrs.result] casOut == callret("Collection.writeWithXattrs", 0) && err == callret("Collection.writeWithXattrs", 1)
 //@
 //@ fn (*Collection).WriteWithXattrs
+//@   modular in=WriteUpdateWithXattrs
+//@   flag modifies=db
 //@   requires DocInv(doc(c.id, k)) && HlcInv(doc(c.id, k)) && IntOK(doc(c.id, k))
 //@   nullable opts
 //@   let called = count("call:Collection.writeWithXattrs") == 1
@@ -584,6 +586,8 @@ package rosmar
 //@   ensures [C07:WriteWithXattrs.result] called ==> casOut == callret("Collection.writeWithXattrs", 0) && err == callret("Collection.writeWithXattrs", 1)
 //@
 //@ fn (*Collection).WriteTombstoneWithXattrs
+//@   modular in=WriteUpdateWithXattrs
+//@   flag modifies=db
 //@   requires DocInv(doc(c.id, key)) && HlcInv(doc(c.id, key)) && IntOK(doc(c.id, key))
 //@   nullable opts
 //@   let called = count("call:Collection.writeWithXattrs") == 1
@@ -598,6 +602,8 @@ package rosmar
 //@   ensures [C05:WriteTombstone.result] called ==> casOut == callret("Collection.writeWithXattrs", 0) && err == callret("Collection.writeWithXattrs", 1)
 //@
 //@ fn (*Collection).WriteResurrectionWithXattrs
+//@   modular in=WriteUpdateWithXattrs
+//@   flag modifies=db
 //@   requires DocInv(doc(c.id, k)) && HlcInv(doc(c.id, k)) && IntOK(doc(c.id, k))
 //@   nullable opts
 //@   let called = count("call:Collection.writeWithXattrs") == 1
@@ -818,3 +824,17 @@ package rosmar
 //@   flag maypanic
 //@   ensures [C14:doExpiration.expires-then-rearms] count("call:Bucket.expireDocuments") == 1 && count("call:Bucket._scheduleExpiration") == 1 && callpos("Bucket.expireDocuments") < callpos("Bucket._scheduleExpiration")
 //@   ensures [C20:doExpiration.panics-only-on-error] panic: count("call:Bucket.expireDocuments") == 1 && callret("Bucket.expireDocuments", 1) != nil
+//@
+//@ spec wuxWrote() = count("call:Collection.WriteWithXattrs") + count("call:Collection.WriteTombstoneWithXattrs") + count("call:Collection.WriteResurrectionWithXattrs")
+//@
+//@ fn (*Collection).WriteUpdateWithXattrs
+//@   flag callbacks=writedb
+//@   nullable previous
+//@   requires opts != nil
+//@   loop 1 invariant [C03:WriteUpdateWithXattrs.loop] opts.PreserveExpiry == old(opts.PreserveExpiry)
+//@   loop 1 body [C03:WriteUpdateWithXattrs.one-write-per-attempt] iter("call:Collection.WriteWithXattrs") + iter("call:Collection.WriteTombstoneWithXattrs") + iter("call:Collection.WriteResurrectionWithXattrs") <= 1 && iter("sql") == 0
+//@   ensures [C03:WriteUpdateWithXattrs.only-conditional-writes] count("sql") == 0
+//@   ensures [C07,C14:WriteUpdateWithXattrs.keeps-preserve-expiry] (iter("call:Collection.WriteWithXattrs") == 1 ==> callarg("Collection.WriteWithXattrs", 8) != nil && callarg("Collection.WriteWithXattrs", 8).PreserveExpiry == old(opts.PreserveExpiry)) && (iter("call:Collection.WriteTombstoneWithXattrs") == 1 ==> callarg("Collection.WriteTombstoneWithXattrs", 8) != nil && callarg("Collection.WriteTombstoneWithXattrs", 8).PreserveExpiry == old(opts.PreserveExpiry)) && (iter("call:Collection.WriteResurrectionWithXattrs") == 1 ==> callarg("Collection.WriteResurrectionWithXattrs", 6) != nil && callarg("Collection.WriteResurrectionWithXattrs", 6).PreserveExpiry == old(opts.PreserveExpiry))
+//@   ensures [C02,C03:WriteUpdateWithXattrs.cas-of-version-shown] (iter("call:Collection.WriteWithXattrs") == 1 ==> callarg("Collection.WriteWithXattrs", 4) == callbackarg(2) && callarg("Collection.WriteWithXattrs", 2) == key) && (iter("call:Collection.WriteTombstoneWithXattrs") == 1 ==> callarg("Collection.WriteTombstoneWithXattrs", 4) == callbackarg(2) && callarg("Collection.WriteTombstoneWithXattrs", 2) == key)
+//@   ensures [C03:WriteUpdateWithXattrs.stores-callback-result] iter("call:Collection.WriteWithXattrs") == 1 ==> callarg("Collection.WriteWithXattrs", 5) == cbret(0).Doc && callarg("Collection.WriteWithXattrs", 6) == cbret(0).Xattrs
+//@   ensures [C20:WriteUpdateWithXattrs.unlocked] any: nolocks()
